@@ -59,6 +59,33 @@ theorem no_one_sided_entry (ops : List ProjOp) (t : Nat)
     t ∉ bucket (({} : ProjReg).run ops).projTgts p := by
   intro hm; have := ((conv_run ops conv_init).2.2 p t).1 hm; simp [h] at this
 
+/-- the abstract specification: a plain relation "projector p is applied to target t" -/
+def projAbsStep (R : Nat → Nat → Prop) : ProjOp → Nat → Nat → Prop
+  | .apply p ts => fun p' t => R p' t ∨ (p' = p ∧ t ∈ ts)
+  | .unapply p ts => fun p' t => R p' t ∧ ¬ (p' = p ∧ t ∈ ts)
+
+/-- **refinement**: any sequence of register calls behaves like the abstract relation — what
+    `get_projector_tgts` and `get_tgt_projectors` answer after the history is the relation obtained by adding and
+    deleting pairs, nothing else -/
+theorem proj_run_refines (ops : List ProjOp) {r : ProjReg} {R : Nat → Nat → Prop} (h : r.Conv)
+    (hr : ∀ p t, t ∈ bucket r.projTgts p ↔ R p t) (p t : Nat) :
+    (t ∈ bucket (r.run ops).projTgts p ↔ ops.foldl projAbsStep R p t) ∧
+    (p ∈ bucket (r.run ops).tgtProjs t ↔ ops.foldl projAbsStep R p t) := by
+  induction ops generalizing r R with
+  | nil => exact ⟨hr p t, (h.2.2 p t).symm.trans (hr p t)⟩
+  | cons op ops ih =>
+    cases op with
+    | apply q ts =>
+      refine ih (r := r.apply q ts) (R := projAbsStep R (.apply q ts)) (conv_apply q ts h) (fun p' t' => ?_)
+      simp only [ProjReg.apply, projAbsStep]; rw [mem_bucket_addSet, hr]
+    | unapply q ts =>
+      refine ih (r := r.unapply q ts) (R := projAbsStep R (.unapply q ts)) (conv_unapply q ts h) (fun p' t' => ?_)
+      simp only [ProjReg.unapply, projAbsStep]; rw [mem_bucket_rmSet h.1.1, hr]
+
+theorem proj_run_refines_init (ops : List ProjOp) (p t : Nat) :
+    t ∈ bucket (({} : ProjReg).run ops).projTgts p ↔ ops.foldl projAbsStep (fun _ _ => False) p t :=
+  (proj_run_refines ops conv_init (fun _ _ => by simp [bucket]) p t).1
+
 example : (({} : ProjReg).run [.apply 1 [5, 6], .apply 2 [6], .unapply 1 [6]]).projTgts = [(1, [5]), (2, [6])]
     ∧ (({} : ProjReg).run [.apply 1 [5, 6], .apply 2 [6], .unapply 1 [6]]).tgtProjs = [(5, [1]), (6, [2])] := by decide
 
